@@ -15,6 +15,8 @@ import ProcSim.Model.Pipeline
 * §6 instruction sets (`createIsa`)
 * §7 programs: the exact form of the C14 round trip (`readProgram_render`), `expectedFrom` on re-cased lists,
   `compileProgram`
+* §8 the composed pipeline (`front`, `run`, `cliTable`)
+* §9 re-casing keeps a written program well-formed (`instrOK`): blanks and commas are not letters
 -/
 namespace ProcSim
 namespace Recase
